@@ -54,6 +54,37 @@ macro_rules! de_harness {
     };
 }
 
+/// `Type` values over *typed static storage* instead of the heap. Kani models
+/// `Rc::new`'s allocation as an untyped byte array, and CBMC cannot constant-fold
+/// a discriminant read from it: even for a concrete type every arm of every
+/// `match` on the tag is explored (measured: deserialize_any on a concrete nat8
+/// >15 min; with pooled types the dispatch is pruned). Layout = std's
+/// `#[repr(C)] RcInner { strong, weak, value }`, so `Rc::from_raw(&slot.value)`
+/// yields an ordinary `Rc`; the strong count starts high and `Rc::drop_slow` is
+/// cut, so a slot is never freed. Only the harness's own types are built this
+/// way; the code under test is unchanged.
+#[repr(C)]
+pub struct RcSlot {
+    strong: std::cell::Cell<usize>,
+    weak: std::cell::Cell<usize>,
+    value: TypeInner,
+}
+pub const POOL_N: usize = 32;
+static mut POOL: [RcSlot; POOL_N] = [const {
+    RcSlot { strong: std::cell::Cell::new(1 << 20), weak: std::cell::Cell::new(1), value: TypeInner::Null }
+}; POOL_N];
+static mut POOL_NEXT: usize = 0;
+pub fn ty(t: TypeInner) -> Type {
+    unsafe {
+        let i = POOL_NEXT;
+        std::assert!(i < POOL_N, "type pool exhausted");
+        POOL_NEXT = i + 1;
+        let slot = &mut *std::ptr::addr_of_mut!(POOL[i]);
+        std::ptr::write(&mut slot.value, t);
+        Type(Rc::from_raw(&slot.value as *const TypeInner))
+    }
+}
+
 /// Decoder state exactly as `Deserializer::from_bytes` + `deserialize_with_type`
 /// leave it before the first value is read: empty type table, fresh memo, no
 /// fast-path flag set, cursor at 0 of the *value* bytes.
